@@ -295,3 +295,18 @@ pub fn alphabet_params() -> Vec<Op> {
     .map(Op::Dt)
     .collect()
 }
+
+/// long ranges through the range API: leaving a no-twilight season and entering the next one
+/// (state carried from date to date inside the range loop: search hints, scratch parameters)
+pub fn alphabet_long_ranges() -> Vec<Op> {
+    let juneau = Site::new(58.3019444, -134.4197222, 0.0, -9.0);
+    let isna = PtCase::new(&Params::new(Method::Isna), juneau, ymd(2022, 5, 25));
+    let mut mwl_s = PtCase::new(&Params::new(Method::Mwl), Site::new(-54.93, -67.61, 0.0, -3.0), ymd(2023, 1, 20));
+    mwl_s.params.intervals.insert(Prayer::Imsaak, 10.0);
+    let mut single = isna.clone();
+    single.date = ymd(2023, 5, 20);
+    let mut all = isna.clone();
+    all.params.extreme_latitude_method = ExtremeLatitudeMethod::NearestGoodDayAllPrayersAlways;
+    all.date = ymd(2022, 7, 1);
+    vec![Op::Rng(isna, 400), Op::Rng(mwl_s, 330), Op::Rng(all, 62), Op::Dt(single)]
+}
